@@ -611,7 +611,12 @@ def obj2bytes(obj):
     elif isinstance(obj, tuple):
         return obj2bytes(list(obj))
     elif isinstance(obj, list):
-        return b"".join(obj2bytes(o) for o in obj)
+        # Prepend the length of each item, such that the item boundaries
+        # are unambiguous (otherwise e.g. [1.52, 5.0] and [1.5, 25.0]
+        # would have the same representation "1.525.0").
+        items = [obj2bytes(o) for o in obj]
+        return b"".join(str(len(it)).encode("utf-8") + b":" + it
+                        for it in items)
     elif isinstance(obj, dict):
         return obj2bytes(sorted(obj.items()))
     elif isinstance(obj, lmfit.parameter.Parameter):
